@@ -105,7 +105,7 @@ CHECKS = {
          "Within the limit the guard is invisible (C18_twin): read limit_depth in three ways that differ only when the new depth would exceed N — raise (the model), stuck (no continuation), off (check removed); whenever the stuck run returns — i.e. no "
          "limit was reached anywhere in the run, at any nesting — the guarded and the unguarded run return that very result (outcome, cursor, full trace, surviving actions), for every grammar, action attachment, input and mode; the stuck reading stops exactly where the guard fires (C18_stuck_exact). Conversely, 'within the limit' can be read off the trace: a guarded run in whose trace no raise of a limit_depth "
          "pseudo-rule occurs — at any nesting, also one swallowed by try_catch — is the stuck run and hence the unguarded run (C18_twin_trace); an input parses differently with and without the guard only if the guard visibly fired (C18_guard_visible)."),
-   note=GENERAL_NOTE + " 'Without the guard' is the off reading of limit_depth (check removed, depth still counted — nothing else reads the counter); the twin-run oracle compares with the same grammar whose guard is removed via a second action family. Depth counts attempts (a rule attempted at depth N+1 raises even if it would fail).",
+   note=GENERAL_NOTE + " 'Without the guard' is the off reading of limit_depth (check removed, depth still counted — nothing else reads the counter); the twin-run oracle compares with the same grammar whose guard is removed via a second action family. Depth counts attempts (a rule attempted at depth N+1 raises even if it would fail). contrib/check_bytes.hpp (which checks consumption after the fact and throws without a raise hook) is not in the model: an oracle on the implementation's trace compares the bytes between the start of the guarded rule and its success hook with the limit.",
    technique="Lean 4 invariant proof + exact characterisation of the two guards + twin-run theorems (guarded = unguarded whenever no limit is reached, and that is exactly when no limit_depth raise occurs in the trace); differential correspondence; trace oracles incl. twin run"),
  'C19': dict(engine='leaf-lines', design_ref='DESIGN.md §6 C19',
    text=("Proof (Lean 4): for all inputs, every offset k <= size, the five eol policies, eager and lazy tracking and any initial byte and line counter (as repaired by fix F19 of at()): at() = k; "
